@@ -44,6 +44,37 @@ def run (op : String) : P String :=
     let eq ← next
     let out ← pOutcomeNode
     pure (oracleC01 o a b (eq == "T") out)
+  | "c04" => do
+    let o ← pOpts; let a ← pNode; let b ← pNode
+    let e1 ← next; let e2 ← next; let e3 ← next
+    pure (oracleC04 o a b (e1 == "T") (e2 == "T") (e3 == "T"))
+  | "c05" => do
+    let o ← pOpts; let a ← pNode; let b ← pNode
+    let e1 ← next; let e2 ← next
+    pure (oracleC05 o a b (e1 == "T") (e2 == "T"))
+  | "c03" => do
+    let c ← pNode; let d ← pDiff; let out ← pOutcomeNode
+    pure (oracleC03 c d out)
+  | "c08" => do
+    let c ← pNode; let d ← pDiff; let out ← pOutcomeNode
+    pure (oracleC08 c d out)
+  | "c06" => do
+    let pre ← pNat; let a ← pNode; let b ← pNode; let d ← pDiff
+    pure (oracleC06 pre a b d)
+  | "c07" => do
+    let o ← pOpts; let a ← pNode; let b ← pNode; let d ← pDiff
+    let n ← pNat
+    let mut outs : List (Outcome Json) := []
+    for _ in [0:n] do
+      outs := outs ++ [← pOutcomeNode]
+    pure (oracleC07 o a b d outs)
+  | "lcs" => do
+    let a ← pNode; let b ← pNode
+    match a, b with
+    | .arr _ xs, .arr _ ys =>
+      pure (toString (lcsLength (hashList [] xs) (hashList [] ys)) ++ " " ++
+        String.intercalate "," ((lcsValues (hashList [] xs) (hashList [] ys)).map hex64))
+    | _, _ => pure "bad-args"
   | "echo" => do
     let n ← pNode
     pure (encNode n)
